@@ -53,12 +53,16 @@ impl<'a> WorkerCore<'a> {
             return IterationResult::Shutdown;
         }
 
+        #[cfg(folo_verif)]
+        crate::verif_hook::point("worker:urgent.pop");
         let task = self.urgent_queue.lock().expect(NEVER_POISONED).pop_front();
         if let Some(mut task) = task {
             task.as_pin_mut().call();
             return IterationResult::ExecutedUrgent;
         }
 
+        #[cfg(folo_verif)]
+        crate::verif_hook::point("worker:regular.pop");
         let task = self.regular_queue.lock().expect(NEVER_POISONED).pop_front();
         if let Some(mut task) = task {
             task.as_pin_mut().call();
